@@ -329,7 +329,14 @@ pub fn gen_doc(rng: &mut Rng, ts: &TileSet) -> Doc {
 		m.insert("bounds".into(), json!(b));
 	}
 	if rng.chance(0.4) {
-		m.insert("center".into(), json!([rng.f64_range(-180.0, 180.0), rng.f64_range(-85.0, 85.0), rng.below(20)]));
+		// (now and then on the edge of the valid range: the antimeridian from either side, a pole, level 0 / 30)
+		let c = match rng.below(6) {
+			0 => json!([180.0, rng.f64_range(-85.0, 85.0).round(), rng.below(20)]),
+			1 => json!([-180.0, rng.f64_range(-85.0, 85.0).round(), rng.below(20)]),
+			2 => json!([rng.f64_range(-180.0, 180.0).round(), *rng.pick(&[90.0, -90.0, 85.0, -85.0]), *rng.pick(&[0u64, 30])]),
+			_ => json!([rng.f64_range(-180.0, 180.0), rng.f64_range(-85.0, 85.0), rng.below(20)]),
+		};
+		m.insert("center".into(), c);
 	}
 	if rng.chance(0.6) {
 		let mut layers = vec![];
@@ -518,7 +525,7 @@ fn tilejson_case(cx: &CaseCtx, rep: &mut Report, rng: &mut Rng, served: bool) {
 			ts2.tilejson = text.clone();
 			let sub = dir.join(format!("pretty{shift}"));
 			let witness = |extra: Value| json!({"container": "directory (independent encoder, pretty-printed metadata)", "metadata_bytes": text.len(), "leading_blanks": shift * 3 % 67, "detail": extra});
-			let o = crate::codec::idir::EncOpts { meta_name: "tiles.json", no_meta: false, stray_files: false, alt_spellings: false, symlinks: false };
+			let o = crate::codec::idir::EncOpts { meta_name: "tiles.json", no_meta: false, stray_files: shift % 2 == 1, alt_spellings: false, symlinks: false };
 			if crate::codec::idir::encode(&ts2, &sub, &o).is_err() {
 				continue;
 			}
@@ -534,6 +541,90 @@ fn tilejson_case(cx: &CaseCtx, rep: &mut Report, rng: &mut Rng, served: bool) {
 				},
 			}
 			let _ = std::fs::remove_dir_all(&sub);
+		}
+	}
+	// metadata as Python's json.dumps writes it by default (ensure_ascii): every character beyond ASCII as a \uXXXX
+	// escape, characters beyond the BMP as a pair of surrogate escapes
+	if !cx.tier.is_tiny() && cx.case % 6 == 2 {
+		cx.progress("foreign ASCII-only metadata");
+		for variant in ["ascii", "ascii+surrogate-pairs"] {
+		let mut v = doc.value.clone();
+		if let Some(o) = v.as_object_mut() {
+			// (string values of the generated document may hold characters beyond the BMP: dropped in the BMP-only variant)
+			if variant == "ascii" {
+				fn bmp(v: &Value) -> Value {
+					let t = |s: &str| s.chars().filter(|c| *c as u32 <= 0xFFFF).collect::<String>();
+					match v {
+						Value::String(s) => Value::String(t(s)),
+						Value::Array(a) => Value::Array(a.iter().map(bmp).collect()),
+						Value::Object(o) => Value::Object(o.iter().map(|(k, v)| (t(k), bmp(v))).collect()),
+						other => other.clone(),
+					}
+				}
+				let keys: Vec<String> = o.keys().cloned().collect();
+				for k in keys {
+					if let Some(val) = o.remove(&k) {
+						let k2: String = k.chars().filter(|c| *c as u32 <= 0xFFFF).collect();
+						o.insert(if k2.is_empty() { k.clone() } else { k2 }, bmp(&val));
+					}
+				}
+			}
+			o.remove("vector_layers");
+			if variant == "ascii" {
+				o.insert("attribution".into(), json!("OSM \u{540D}\u{524D} Stra\u{DF}e \u{20AC}"));
+				o.insert("description".into(), json!(format!("BMP edges \u{FFFD}\u{E000}\u{D7FF} #{}", rng.below(1000))));
+			} else {
+				o.insert("attribution".into(), json!("\u{1F600} OSM \u{1D11E} \u{540D}\u{524D} Stra\u{DF}e"));
+				o.insert("description".into(), json!(format!("non-BMP: \u{1F5FA} and \u{10FFFF} #{}", rng.below(1000))));
+			}
+		}
+		let compact = serde_json::to_string(&v).unwrap_or_default();
+		let mut ascii = String::new();
+		for c in compact.chars() {
+			if (c as u32) < 0x7f {
+				ascii.push(c);
+			} else {
+				let mut buf = [0u16; 2];
+				for u in c.encode_utf16(&mut buf) {
+					ascii.push_str(&format!("\\u{:04x}", u));
+				}
+			}
+		}
+		let doc3 = Doc { text: ascii.clone(), value: v, minzoom: doc.minzoom, maxzoom: doc.maxzoom, bounds: doc.bounds };
+		let mut ts3 = ts.clone();
+		ts3.tilejson = ascii.clone();
+		for container in ["directory", "tar"] {
+			let sub = dir.join(format!("{variant}-{container}"));
+			let _ = std::fs::create_dir_all(&sub);
+			let path = if container == "directory" {
+				let o = crate::codec::idir::EncOpts { meta_name: "tiles.json", no_meta: false, stray_files: false, alt_spellings: false, symlinks: false };
+				if crate::codec::idir::encode(&ts3, &sub.join("d"), &o).is_err() {
+					continue;
+				}
+				sub.join("d")
+			} else {
+				let mut o = crate::codec::itar::EncOpts::random(rng);
+				o.no_meta = false;
+				let p = sub.join("c.tar");
+				if std::fs::write(&p, crate::codec::itar::encode(&ts3, &o, rng)).is_err() {
+					continue;
+				}
+				p
+			};
+			let witness = |extra: Value| json!({"container": format!("{container} (independent encoder, ASCII-only metadata)"), "metadata": ascii.chars().take(400).collect::<String>(), "detail": extra});
+			rep.eval();
+			rep.count("tilejson_roundtrips_foreign_ascii_only", 1);
+			let r = guard::catch(|| guard::block_on(async { versatiles_container::get_reader(path.to_str().unwrap()).await.map(|r| r.get_tilejson().as_string()) }));
+			match r {
+				Err(p) => rep.violation(&p.signature(&format!("tilejson-container-{container}")), "reading the container panicked", witness(json!({"panic": p.describe()}))),
+				Ok(Err(e)) => rep.violation(&format!("container|{container}|failed"), "reading the container failed", witness(json!({"error": format!("{e:#}")}))),
+				Ok(Ok(text)) => match serde_json::from_str::<Value>(&text) {
+					Err(e) => rep.violation(&format!("container|{container}|returned-text-not-json"), "the TileJSON handed back is not valid JSON", witness(json!({"error": e.to_string()}))),
+					Ok(got) => compare_doc(rep, &format!("container|{container}({variant})"), &doc3, &got, &ts, &[], &witness),
+				},
+			}
+			let _ = std::fs::remove_dir_all(&sub);
+		}
 		}
 	}
 	if served {
